@@ -40,6 +40,7 @@ class ScriptSock:
     """first connection: delivers exactly the scripted recv events"""
     def __init__(self, events):
         self.events = list(events)
+        self.last = None
         self.recvs = 0
         self.stalls = 0
         self.sent = b''
@@ -57,9 +58,15 @@ class ScriptSock:
 
     def recv(self, n):
         self.recvs += 1
+        if self.recvs > 20000:
+            raise fn.HarnessHang('more than 20000 recv calls on one connection')
         if not self.events:
+            if self.last == 't':          # a peer that went quiet stays quiet: every further read times out again
+                self.stalls += 1
+                raise real_socket.timeout('timed out')
             return b''
         ev = self.events.pop(0)
+        self.last = ev
         if ev == 't':
             self.stalls += 1
             raise real_socket.timeout('timed out')
@@ -121,6 +128,9 @@ def run_scripted(events, extra_args=('-2',)):
                 print(traceback.format_exc())
         except SystemExit as e:
             code = e.code
+        except fn.HarnessHang as e:
+            code = 'HANG'
+            print('\nHARNESS: run aborted, the code under test does not terminate (%s)' % e)
     finally:
         sys.stdout, sys.argv = so, sa_argv
         ss.socket = old
@@ -410,7 +420,8 @@ def run(ctx):
                 fail('malformed_kexinit_reported', inp, {'exit': code, 'class': cls, 'stdout': out[:300]}, 'the key-exchange-init packet is incomplete (a field overruns the payload): status 1 and no algorithm report')
         if sock.stalls > 2:
             fail('more_than_two_stalls_waited_for', inp, {'stalls': sock.stalls}, '<= 2 on one connection (one for an unterminated identification line, one for the packet after it)')
-        lines.append('session.handshake ' + ev_tokens(events))
+        # (a peer that went quiet stays quiet: the scripted socket keeps timing out after a final stall, the model gets the stall repeated)
+        lines.append('session.handshake ' + ev_tokens(events + (['t'] * 3 if events and events[-1] == 't' else [])))
         expect.append(({'class': cls, 'recvs': sock.recvs, 'stalls': sock.stalls}, inp))
     model = ctx.driver(lines) if ctx.driver_ok else []
     for line, m, (want, inp) in zip(lines, model, expect):
